@@ -576,6 +576,159 @@ theorem C18_estimator_bias_fixed_witness :
   · simp [dot, pow2]; norm_num
   · simp [dot, pow2]; norm_num
 
+/-! ## padded layers × stated ranges that exclude zero (strengthening round, seed C18-10)
+
+`padding="same"` / `"causal"` make the border output positions read padded zeros; strides and
+dilation only choose WHICH input elements a position reads.  A patch is therefore any list whose
+entries are in the stated range or zero (`PaddedPatch`).  The estimator stays an upper bound for
+all of them — because it clamps the range to contain zero — and the clamp cannot be dropped. -/
+
+/-- per output channel, ANY layer geometry: for a patch whose taps read inputs inside
+    `[xmin, xmax]` or padded zeros, `|Σ wⱼxⱼ + b| ≤ max(n1, n0)` — every bias, every range (also
+    ranges that exclude zero, degenerate points, `xmin > xmax` vacuous for unpadded taps) -/
+theorem C18_estimator_bound_padded (ws xs : List ℚ) (b xmin xmax : ℚ)
+    (hx : PaddedPatch xs xmin xmax) :
+    |dot ws xs + b| ≤ chanBound ws b xmin xmax := by
+  have hP := posPart_nonneg xmax
+  have hM := negPart_nonpos xmin
+  have hd := dot_bounds ws xs hP hM (fun x h => by
+    rcases hx x h with ⟨h1, h2⟩ | h0
+    · exact ⟨le_trans (negPart_le xmin) h1, le_trans h2 (le_posPart xmax)⟩
+    · subst h0; exact ⟨hM, hP⟩)
+  have h1 : dot ws xs + b ≤ estN1 ws b xmin xmax := by
+    unfold estN1 estNpp estNnn; linarith [hd.2]
+  have h0 : -(dot ws xs + b) ≤ estN0 ws b xmin xmax := by
+    unfold estN0 estNpp estNnn; linarith [hd.1]
+  show |dot ws xs + b| ≤ if estN0 ws b xmin xmax < estN1 ws b xmin xmax
+    then estN1 ws b xmin xmax else estN0 ws b xmin xmax
+  rw [abs_le]
+  split <;> constructor <;> linarith
+
+/-- ALL CHANNELS, ALL OUTPUT POSITIONS of a padded / strided / dilated layer: whenever
+    `analyze_accumulator` returns `e`, every output channel `i` satisfies `|Σ wⱼxⱼ + b| ≤ 2^e` on
+    every patch of in-range inputs and padded zeros -/
+theorem C18_estimator_all_channels_padded (slices : List (List ℚ)) (bias : List ℚ)
+    (xmin xmax : ℚ) (e : ℤ) (h : analyzeAccumulator slices bias xmin xmax = .ok e)
+    (i : ℕ) (hi : i < slices.length) (xs : List ℚ) (hx : PaddedPatch xs xmin xmax) :
+    ∃ b, bias[i]? = some b ∧ |dot slices[i] xs + b| ≤ pow2 e := by
+  unfold analyzeAccumulator at h
+  split at h
+  · rename_i hlen
+    obtain ⟨b, hb, hmem⟩ := channel_mem slices bias hlen i hi
+    refine ⟨b, hb, ?_⟩
+    simp only at h
+    split at h
+    · cases h
+    · rename_i hm
+      push Not at hm
+      injection h with h
+      subst h
+      have hle : chanBound slices[i] b xmin xmax ≤ listMax ((channels slices bias).map
+          fun (p : List ℚ × ℚ) => chanBound p.1 p.2 xmin xmax) :=
+        le_listMax (List.mem_map.2 ⟨(slices[i], b), hmem, rfl⟩)
+      exact le_trans (C18_estimator_bound_padded slices[i] xs b xmin xmax hx)
+        (le_trans hle (le_pow2_ceilLog2Rat hm))
+  · cases h
+
+/-- an unpadded patch is a padded patch: the earlier statements are the special case -/
+theorem C18_estimator_unpadded_is_padded (xs : List ℚ) (xmin xmax : ℚ)
+    (hx : ∀ x ∈ xs, xmin ≤ x ∧ x ≤ xmax) : PaddedPatch xs xmin xmax :=
+  fun x h => Or.inl (hx x h)
+
+/-- for a stated range that contains or touches zero the clamp changes nothing: the code's
+    per-channel bound IS the endpoint formula (so a change of the range terms can only show on
+    ranges that exclude zero) -/
+theorem C18_estimator_clamp_noop_zero_in_range (ws : List ℚ) (b xmin xmax : ℚ)
+    (h0 : xmin ≤ 0) (h1 : 0 ≤ xmax) :
+    chanBound ws b xmin xmax = chanBoundEndpoint ws b xmin xmax := by
+  have hp : posPart xmax = xmax := by
+    unfold posPart; split
+    · rfl
+    · linarith
+  have hn : negPart xmin = xmin := by
+    unfold negPart; split
+    · rfl
+    · linarith
+  unfold chanBound chanBoundEndpoint estN1 estN0 estN1Endpoint estN0Endpoint
+  rw [hp, hn]
+
+/-- the endpoint formula is sound when NO tap reads a padded zero (dense layers, `"valid"`
+    convolutions with any strides / dilation): every tap on a real input inside `[xmin, xmax]` -/
+theorem C18_estimator_endpoint_bound_unpadded (ws xs : List ℚ) (b xmin xmax : ℚ)
+    (hlen : ws.length ≤ xs.length) (hx : ∀ x ∈ xs, xmin ≤ x ∧ x ≤ xmax) :
+    |dot ws xs + b| ≤ chanBoundEndpoint ws b xmin xmax := by
+  have hd := dot_bounds_endpoint ws xs hlen hx
+  have h1 : dot ws xs + b ≤ estN1Endpoint ws b xmin xmax := by
+    unfold estN1Endpoint estNpp estNnn; linarith [hd.2]
+  have h0 : -(dot ws xs + b) ≤ estN0Endpoint ws b xmin xmax := by
+    unfold estN0Endpoint estNpp estNnn; linarith [hd.1]
+  show |dot ws xs + b| ≤ if estN0Endpoint ws b xmin xmax < estN1Endpoint ws b xmin xmax
+    then estN1Endpoint ws b xmin xmax else estN0Endpoint ws b xmin xmax
+  rw [abs_le]
+  split <;> constructor <;> linarith
+
+/-- ... and UNSOUND as soon as a tap can read a padded zero (seed C18-10): a `3×3` kernel whose
+    first row is −1/2 and whose other taps are +1/2, stated range `[1, 1]` (an all-max sample).
+    The top border position of a `padding="same"` layer reads zeros under the first row: its
+    output is `6 · 1/2 = 3`.  The endpoint formula credits the negative row with `−3/2` of
+    cancellation: bound `3/2`, size `ceil(log2 3/2) = 1`, and `3 > 2^1`.  The code (clamped
+    range) returns 2, and `3 ≤ 2^2`.  Same for the mirrored kernel on `[−1, −1]`. -/
+theorem C18_estimator_endpoint_padded_counterexample :
+    let ws : List ℚ := [-1/2, -1/2, -1/2, 1/2, 1/2, 1/2, 1/2, 1/2, 1/2]
+    let border : List ℚ := [0, 0, 0, 1, 1, 1, 1, 1, 1]
+    PaddedPatch border 1 1 ∧
+    chanBoundEndpoint ws 0 1 1 = 3 / 2 ∧ ceilLog2Rat (3 / 2) = 1 ∧
+    ¬ (|dot ws border + 0| ≤ pow2 1) ∧
+    analyzeAccumulator [ws] [0] 1 1 = .ok 2 ∧ |dot ws border + 0| ≤ pow2 2 ∧
+    chanBoundEndpoint (ws.map (-·)) 0 (-1) (-1) = 3 / 2 ∧
+    ¬ (|dot (ws.map (-·)) (border.map (-·)) + 0| ≤ pow2 1) := by
+  refine ⟨?_, by decide +kernel, by decide +kernel, ?_, by decide +kernel, ?_, by decide +kernel, ?_⟩
+  · intro x hx
+    simp at hx
+    rcases hx with rfl | rfl
+    · right; rfl
+    · left; constructor <;> norm_num
+  · simp [dot, pow2]; norm_num
+  · simp [dot, pow2]; norm_num
+  · simp [dot, pow2]; norm_num
+
+/-! ### the route `analyze_accumulator_from_sample` (stated range derived from a sample) -/
+
+/-- with two or more quantized layers the derived range covers every element of every sample -/
+theorem C18_from_sample_range_covers (samples : List (List ℚ)) (s : List ℚ) (hs : s ∈ samples)
+    (x : ℚ) (hx : x ∈ s) :
+    (fromSampleRange false samples).1 ≤ x ∧ x ≤ (fromSampleRange false samples).2 := by
+  have hmem : x ∈ samples.flatten := List.mem_flatten.2 ⟨s, hs, hx⟩
+  exact ⟨listMin_le hmem, le_listMax hmem⟩
+
+/-- PARTIAL (two or more quantized layers): whenever the function returns `e`, every output
+    channel is bounded by `2^e` on every patch made of sample elements and padded zeros — in
+    particular on the sample itself, whatever the padding -/
+theorem C18_from_sample_partial (samples : List (List ℚ)) (slices : List (List ℚ))
+    (bias : List ℚ) (e : ℤ) (h : analyzeFromSample false samples slices bias = .ok e)
+    (i : ℕ) (hi : i < slices.length) (xs : List ℚ)
+    (hx : ∀ x ∈ xs, x ∈ samples.flatten ∨ x = 0) :
+    ∃ b, bias[i]? = some b ∧ |dot slices[i] xs + b| ≤ pow2 e := by
+  refine C18_estimator_all_channels_padded slices bias _ _ e h i hi xs ?_
+  intro x hxm
+  rcases hx x hxm with hmem | h0
+  · exact Or.inl ⟨listMin_le hmem, le_listMax hmem⟩
+  · exact Or.inr h0
+
+/-- COUNTEREXAMPLE (finding C18-from-sample-single-layer): one quantized layer with the single
+    weight 1, sample batch `[[1/4], [1]]`.  The derived range is that of the FIRST sample,
+    `[1/4, 1/4]`; the size is `ceil(log2 1/4) = −2`; the second sample of the very batch the range
+    was taken from gives the output 1 > 2^−2.  The same model counted as one of several quantized
+    layers gets the range `[1/4, 1]` and the size 0. -/
+theorem C18_from_sample_single_layer_counterexample :
+    fromSampleRange true [[1/4], [1]] = (1/4, 1/4) ∧
+    analyzeFromSample true [[1/4], [1]] [[1]] [0] = .ok (-2) ∧
+    ¬ (|dot [1] [1] + 0| ≤ pow2 (-2)) ∧
+    fromSampleRange false [[1/4], [1]] = (1/4, 1) ∧
+    analyzeFromSample false [[1/4], [1]] [[1]] [0] = .ok 0 := by
+  refine ⟨by decide +kernel, by decide +kernel, ?_, by decide +kernel, by decide +kernel⟩
+  simp [dot, pow2]; norm_num
+
 /-! ## alias class names (strengthening round, seed C18-5)
 
 qtools picks the multiplier CELL from the operands' `mode`, but inside Mux / AndGate / Adder it
